@@ -29,6 +29,17 @@ Theorem C12_running_agreement : forall truths tr c,
         /\ (is_stopped_like st = true -> zmem i (p_running p) = false).
 Proof. exact running_agreement. Qed.
 
+(* ... and "whether a process is stopped or running is agreed": if an instance that j sees RUNNING reports the
+   process in a running state, j's synthetic state for the process is a running one. *)
+Theorem C12_running_status_agreement : forall truths tr c,
+  (forall i t, aget i truths = Some t -> NoDup (akeys t)) ->
+  clean (cinit truths) tr = true -> crun (cinit truths) tr = Ok c ->
+  forall j i nj ni, aget j (c_nodes c) = Some nj -> aget i (c_nodes c) = Some ni ->
+    adm (cn_ctx nj) i = Some IRUNNING -> out_queue ni j = [] ->
+    forall k st e, aget k (cn_truth ni) = Some (st, e) -> is_running_like st = true ->
+      exists p, aget k (r_procs (cn_ctx nj)) = Some p /\ is_running_like (p_state p) = true.
+Proof. exact running_status_agreement. Qed.
+
 (* ... hence two instances that see i RUNNING agree about i. *)
 Theorem C12_pairwise_agreement : forall truths tr c,
   (forall i t, aget i truths = Some t -> NoDup (akeys t)) ->
@@ -98,6 +109,14 @@ Theorem C12_handshake_window_local_refuted :
     /\ view_of c 1 7 1 = Some (STOPPED, true) /\ truth_of c 1 7 = Some (STARTING, true)
     /\ running_at c 1 7 = [].
 Proof. exact handshake_window_local_refuted. Qed.
+
+(* the "exactly" half (nothing from an instance that is not seen RUNNING) is not covered, and is false of the
+   model: a process STOPPING on an instance when that instance is lost stays listed there (DESIGN §6 F11) *)
+Theorem C12_lost_stopping_residue :
+  clean (cinit w_truths) w_residue = true
+  /\ (let c := final_of w_truths w_residue in
+      quiescent c = true /\ sees c 1 2 = Some ISTOPPED /\ running_at c 1 7 = [2]).
+Proof. exact lost_stopping_residue. Qed.
 
 (* while a process is STOPPING, `running_identifiers` depends on when the instance was admitted *)
 Theorem C12_stopping_membership_differs :
